@@ -7,6 +7,7 @@ import Csvq.Lemmas.SortSpec
 import Csvq.Props.C04
 import Csvq.Props.C17
 import Csvq.Gen.AnalyticFacts
+import Csvq.Gen.SortFacts
 namespace Csvq.C17
 open Csvq Csvq.Analytic
 
@@ -350,6 +351,44 @@ theorem cum_groups_spec (eqv : Nat → Nat → Bool) (p : List Nat) :
     obtain ⟨h1, h2, _⟩ := openLoop_runs eqv rest x [] (by simp)
     exact ⟨by simpa using h1, h2⟩
 
+theorem openLoop_separate (eqv : Nat → Nat → Bool) {p : List Nat} (P : Peers eqv p) :
+    ∀ (rest pre0 : List Nat) (h : Nat) (run : List Nat),
+    p = pre0 ++ h :: run ++ rest → (∀ y ∈ run, eqv y h = true) →
+    SeparateOK eqv (openLoop eqv rest h (h :: run)) := by
+  intro rest
+  induction rest with
+  | nil => intro pre0 h run _ _; simp [openLoop, SeparateOK]
+  | cons x rest ih =>
+    intro pre0 h run hp hrun
+    simp only [openLoop]
+    by_cases hx : eqv x h = true
+    · simp only [hx, if_true]
+      have := ih pre0 h (run ++ [x]) (by simp [hp]) (fun y hy => by
+        rcases List.mem_append.mp hy with hy | hy
+        · exact hrun y hy
+        · simp at hy; subst hy; exact hx)
+      simpa using this
+    · have hx' : eqv x h = false := by simpa using hx
+      simp only [hx', Bool.false_eq_true, if_false, SeparateOK]
+      refine ⟨?_, ?_⟩
+      · intro y hy j hj
+        have hfl := (openLoop_runs eqv rest x [] (by simp)).1
+        rw [hfl] at hj
+        exact after_break eqv P hp hrun hx' j (by simpa using hj) y hy
+      · have := ih (pre0 ++ h :: run) x [] (by simp [hp]) (by simp)
+        simpa using this
+
+/-- on a partition whose peer relation is symmetric, transitive and contiguous (`Peers`: every sorted partition)
+    the groups of perseCumulativeGroups are exactly the peer classes: records of different groups are never peers
+    (and, `group_members_are_peers`, records of one group always are) -/
+theorem cum_groups_separate (eqv : Nat → Nat → Bool) (p : List Nat) (P : Peers eqv p) :
+    SeparateOK eqv (cumGroups eqv p none []) := by
+  cases p with
+  | nil => trivial
+  | cons x rest =>
+    rw [cumGroups_eq]
+    exact openLoop_separate eqv P rest [] x [] (by simp) (by simp)
+
 /-- with a symmetric, transitive equivalence all records of a group are peers of one another -/
 theorem group_members_are_peers (eqv : Nat → Nat → Bool) (p : List Nat) (P : Peers eqv p) (g : List Nat)
     (hg : GroupOK eqv g) : g.Pairwise (fun a b => eqv b a = true) := by
@@ -374,6 +413,45 @@ theorem gen_evalAnalyticFunction_reviewed :
 theorem gen_serialize_reviewed :
     Gen.An.serializePrologue = ["if 0 < i {buf.WriteByte(58)}", "if val.SerializedKey != nil {buf.Write(val.SerializedKey.Bytes()) continue}"] ∧
     Gen.An.serializeCases = [("NullType", "serializeNull(buf)"), ("IntegerType, BooleanType", "serializeInteger(buf, value.Int64ToStr(val.Integer))"), ("FloatType", "serializeFloat(buf, floatKeyString(val.Float))"), ("DatetimeType", "serializeDatetimeFromUnixNano(buf, val.Datetime)"), ("StringType", "serializeString(buf, val.String)")] := ⟨rfl, rfl⟩
+
+/-! ## the ordering inside OVER (…) is the source's comparison
+
+  `sortView` orders the view by `rowsLess`, `peersOf` decides peers by `rowsEquiv`.  Both are the translations
+  of `SortValue.Less` / `SortValues.Less` / `SortValue.EquivalentTo` that /verif/extract/sortfacts regenerates
+  from lib/query/sort_value.go before this file is built (Csvq/Gen/SortFacts.lean) — in particular two integers
+  are compared EXACTLY (also above 2^53), a number meets a string through the number's text. -/
+
+/-- `SortValue.Less` as it stands in the source is the comparison `sortView` orders the view by -/
+theorem analytic_order_less_is_source (a b : SortVal) (ha : a.WF) (hb : b.WF) :
+    Gen.sortLess a.toSV b.toSV = a.less b := by
+  cases a <;> cases b <;>
+    simp only [Gen.sortLess, SortVal.toSV, SortVal.less, fltLess, strLess, SortVal.WF, intLt] at * <;>
+    (try simp_all) <;> (try (split <;> simp_all)) <;> (try rfl) <;> (try (split <;> rfl)) <;>
+    (try (split <;> (try rfl) <;> split <;> (try rfl) <;> split <;> rfl))
+
+/-- one round of `SortValues.Less` (direction, NULLS position, next item) is one unfolding of `rowsLess` -/
+theorem analytic_order_step_is_source (it : OrdItem) (a b : SortVal) (its : List OrdItem) (as bs : List SortVal) :
+    rowsLess (it :: its) (a :: as) (b :: bs) =
+      match Gen.rowsLessStep (a.less b) a.isNull b.isNull (it.dir == .asc) (it.np == .first) with
+      | some r => r
+      | none => rowsLess its as bs := by
+  obtain ⟨d, n⟩ := it
+  simp only [rowsLess, Gen.rowsLessStep]
+  cases a.less b <;> cases d <;> cases n <;> cases a.isNull <;> cases b.isNull <;> simp
+
+/-- `SortValue.EquivalentTo` as it stands in the source is the peer relation of RANK & co. (`peersOf`) -/
+theorem analytic_peers_equiv_is_source (a b : SortVal) : Gen.sortEquiv a.toSV b.toSV = a.equiv b := by
+  cases a <;> cases b <;> simp only [Gen.sortEquiv, SortVal.toSV, SortVal.equiv] <;> (try simp) <;>
+    (try (rename_i x y; cases x <;> cases y <;> simp)) <;> (try (rename_i x _ _ _; cases x <;> simp <;> exact BEq.comm))
+
+/-- two integers are ordered by their exact values, whatever their float64 images: 2^53 sorts before 2^53 + 1 -/
+theorem analytic_order_big_integers (i j : Int) (f g : FVal) (s t : Bytes) :
+    (SortVal.int i f s).less (SortVal.int j g t) = (if i = j then .U else ofB (i < j)) := rfl
+
+/-- NewSortValue (what the sort value of a cell holds: for a number also its upper-cased trimmed text, which
+    `Less` uses when the number meets a string) is the reviewed text `toSortVal` was written from -/
+theorem gen_newSortValue_reviewed :
+    Gen.An.newSortValueStatements = ["sortValue := &SortValue{}", "if value.IsNull(val) {sortValue.Type = NullType} else if i := value.ToIntegerStrictly(val); !value.IsNull(i) {s := value.ToString(val) sortValue.Type = IntegerType sortValue.Integer = i.(*value.Integer).Raw() sortValue.Float = float64(sortValue.Integer) sortValue.String = strings.ToUpper(option.TrimSpace(s.(*value.String).Raw())) value.Discard(i) value.Discard(s)} else if f := value.ToFloat(val); !value.IsNull(f) {s := value.ToString(val) sortValue.Type = FloatType sortValue.Float = f.(*value.Float).Raw() sortValue.String = strings.ToUpper(option.TrimSpace(s.(*value.String).Raw())) value.Discard(f) value.Discard(s)} else if dt := value.ToDatetime(val, flags.DatetimeFormat, flags.GetTimeLocation()); !value.IsNull(dt) {t := dt.(*value.Datetime).Raw() sortValue.Type = DatetimeType sortValue.Datetime = t.UnixNano() value.Discard(dt)} else if b := value.ToBoolean(val); !value.IsNull(b) {sortValue.Type = BooleanType if b.(*value.Boolean).Raw() {sortValue.Integer = 1} else {sortValue.Integer = 0}} else if s, ok := val.(*value.String); ok {sortValue.Type = StringType sortValue.String = strings.ToUpper(option.TrimSpace(s.Raw()))} else {sortValue.Type = NullType}", "if flags.StrictEqual {sortValue.SerializedKey = &bytes.Buffer{} SerializeIdenticalKey(sortValue.SerializedKey, val)}", "return sortValue"] := rfl
 
 /-! ## non-vacuity -/
 
